@@ -24,6 +24,19 @@ func (a *IncentiveAgent) Step(s *Sim) {
 	p := pick(r, pools)
 	from := s.Height + 1 + int64(r.IntN(4))
 	to := from + 1 + int64(r.IntN(30))
+	if r.IntN(6) == 0 {
+		// an incentive for the pool that does not exist yet (ids are predictable), with a short range
+		// that may be over before the pool appears; also the vault's reward pool
+		next := uint64(1)
+		for _, q := range pools {
+			if q.PoolId >= next {
+				next = q.PoolId + 1
+			}
+		}
+		p.PoolId = pick(r, []uint64{next, next, 32767})
+		to = from + 1 + int64(r.IntN(6))
+		s.Stats.Probe("incentive_for_pool_without_info_submitted")
+	}
 	per := s.uniq(logUniform(r, 10, 5e7))
 	if per.MulRaw(to - from).LT(sdkmath.NewInt(1000)) {
 		per = sdkmath.NewInt(1000)
